@@ -8,7 +8,14 @@ import (
 	"bytes"
 	"encoding/json"
 	"fmt"
+	"go/ast"
+	"go/parser"
+	"go/printer"
+	"go/token"
 	"os"
+	"path/filepath"
+	"sort"
+	"strings"
 
 	"go.sia.tech/core/types"
 	"verif/harness/internal/chaingen"
@@ -320,6 +327,70 @@ func runCase(cs poolsim.Case) (coqOut string, failOut *failure, stOut stats, rOu
 		if !same {
 			report("c14-returned-value-aliases-pool", "reordering the returned lists / mutating returned v2 transactions changed what the pool returns next")
 		}
+		if fail != nil {
+			return
+		}
+		requery := func(api string) {
+			b1 := r.CM.PoolTransactions()
+			b2 := r.CM.V2PoolTransactions()
+			ok := len(b1) == len(e1) && len(b2) == len(e2)
+			for i := 0; ok && i < len(b1); i++ {
+				ok = bytes.Equal(poolsim.EncV1(b1[i]), e1[i])
+			}
+			for i := 0; ok && i < len(b2); i++ {
+				ok = bytes.Equal(poolsim.EncV2(b2[i]), e2[i])
+			}
+			if !ok {
+				report("c14-returned-value-aliases-pool", "mutating / reordering what "+api+" returned changed what the pool returns next")
+			}
+		}
+		// TransactionsForPartialBlock: every pooled transaction by its Merkle leaf hash
+		var want []types.Hash256
+		for _, x := range a1 {
+			want = append(want, x.MerkleLeafHash())
+		}
+		for _, x := range a2 {
+			want = append(want, x.MerkleLeafHash())
+		}
+		if len(want) > 0 {
+			g1, g2 := r.CM.TransactionsForPartialBlock(want)
+			st["partial-block-queries"]++
+			if len(g1) != len(a1) || len(g2) != len(a2) {
+				report("c14-partial-block-wrong-transactions", fmt.Sprintf("TransactionsForPartialBlock(<hashes of all %d+%d pooled transactions>) returned %d+%d", len(a1), len(a2), len(g1), len(g2)))
+				return
+			}
+			for i := range g2 {
+				scribble(&g2[i])
+			}
+			for i, j := 0, len(g1)-1; i < j; i, j = i+1, j-1 {
+				g1[i], g1[j] = g1[j], g1[i]
+			}
+			for i, j := 0, len(g2)-1; i < j; i, j = i+1, j-1 {
+				g2[i], g2[j] = g2[j], g2[i]
+			}
+			requery("TransactionsForPartialBlock")
+		}
+		// V2TransactionSet / UnconfirmedParents for the last pooled transaction of each kind
+		if len(a2) > 0 && fail == nil {
+			if _, set, err := r.CM.V2TransactionSet(r.CM.Tip(), a2[len(a2)-1].DeepCopy()); err == nil {
+				st["txset-queries"]++
+				for i := range set {
+					scribble(&set[i])
+				}
+				for i, j := 0, len(set)-1; i < j; i, j = i+1, j-1 {
+					set[i], set[j] = set[j], set[i]
+				}
+				requery("V2TransactionSet")
+			}
+		}
+		if len(a1) > 0 && fail == nil {
+			ps := r.CM.UnconfirmedParents(a1[len(a1)-1])
+			st["parents-queries"]++
+			for i, j := 0, len(ps)-1; i < j; i, j = i+1, j-1 {
+				ps[i], ps[j] = ps[j], ps[i]
+			}
+			requery("UnconfirmedParents")
+		}
 	}
 	submit := func(s *poolsim.Submission) {
 		b1, b2 := r.Pool()
@@ -565,8 +636,62 @@ func runCase(cs poolsim.Case) (coqOut string, failOut *failure, stOut stats, rOu
 	return coq, fail, st, r
 }
 
+// readAPIs lists the exported Manager methods that return transactions, from the source.
+func readAPIs(repo string) ([]string, error) {
+	fset := token.NewFileSet()
+	f, err := parser.ParseFile(fset, filepath.Join(repo, "chain", "manager.go"), nil, 0)
+	if err != nil {
+		return nil, err
+	}
+	var out []string
+	for _, d := range f.Decls {
+		fd, ok := d.(*ast.FuncDecl)
+		if !ok || fd.Recv == nil || !fd.Name.IsExported() || fd.Type.Results == nil || len(fd.Recv.List) != 1 {
+			continue
+		}
+		var recv bytes.Buffer
+		printer.Fprint(&recv, fset, fd.Recv.List[0].Type)
+		if recv.String() != "*Manager" {
+			continue
+		}
+		for _, r := range fd.Type.Results.List {
+			var buf bytes.Buffer
+			printer.Fprint(&buf, fset, r.Type)
+			if strings.Contains(buf.String(), "Transaction") {
+				out = append(out, fd.Name.Name)
+				break
+			}
+		}
+	}
+	sort.Strings(out)
+	return out, nil
+}
+
+// covered: the transaction-returning methods of chain.Manager and how this check treats what
+// they return
+var covered = map[string]string{
+	"PoolTransaction":             "lookup monitor (v1 values: identity only)",
+	"PoolTransactions":            "reordered, then re-queried",
+	"V2PoolTransaction":           "mutated, then re-queried",
+	"V2PoolTransactions":          "mutated and reordered, then re-queried",
+	"TransactionsForPartialBlock": "mutated and reordered, then re-queried",
+	"UnconfirmedParents":          "reordered, then re-queried",
+	"V2TransactionSet":            "mutated and reordered, then re-queried",
+	"UpdateV2TransactionSet":      "not a pool read: returns the caller's (documented as modified) set, covered by C13",
+}
+
 func run(c *hx.Ctx) {
 	res := c.Res
+	if apis, err := readAPIs(c.Repo); err != nil {
+		res.Fail("c14-read-api-lint-failed", "chain/manager.go could not be parsed: "+err.Error(), map[string]any{})
+	} else {
+		for _, a := range apis {
+			if _, ok := covered[a]; !ok {
+				res.Fail("c14-read-api-not-covered", "chain.Manager."+a+" returns transactions but the aliasing monitor does not exercise it", map[string]any{"method": a})
+			}
+		}
+		res.Notes = append(res.Notes, fmt.Sprintf("transaction-returning Manager methods found in the source: %v", apis))
+	}
 	res.Shard = 25
 	res.Rule = "fork trees of real mined blocks (valid branches, 3 hardfork regimes) x histories interleaving block submissions (reorgs) with pool submissions of 22 flavours (fresh, parent/child, ephemeral, stale basis, conflicting / invalid at every position k <= 4, partly known, known, child without parent, every generator transaction kind, wrong basis, corrupted proof, empty) x lookups by v1 ids, v2 ids, rejected and random ids after every step; non-trivial := some multi-member set was refused and some set was accepted; distinct by (tree seed, plan)"
 	var cases []string
